@@ -54,6 +54,14 @@ func NewNetConnectionServerCommunicator(server *dns.Server) (*NetConnectionServe
 }
 
 func (n *NetConnectionServerCommunicator) handleRequest(w dns.ResponseWriter, r *dns.Msg) {
+	// Queries come from anybody on the network and miekg/dns does not recover panics raised by
+	// handlers: make sure that a malformed query can never take the whole server down.
+	defer func() {
+		if e := recover(); e != nil {
+			log.Errorf("Failed handling DNS request -- will not send anything back: %v", e)
+		}
+	}()
+
 	var resp *dns.Msg
 	var err error
 	if n.onMessage != nil {
